@@ -16,6 +16,8 @@ package types
 //@   ensures [last] result != nil ==> result[len(result)-1] == old(prefix[len(result)-1]) + 1
 //@   ensures [tail-ff] result != nil ==> forall i int :: len(result) <= i && i < len(prefix) ==> prefix[i] == 255
 //@   ensures [fresh] result != nil ==> fresh(result)
+//@   ensures [succ] result != nil ==> isSucc(bytes(result), bytes(prefix))
+//@   ensures [allff] result == nil ==> allFF(bytes(prefix))
 //@   loop 0 invariant 1 <= len(end) && len(end) <= len(prefix) && off(end) == 0 && fresh(end) && end != nil
 //@   loop 0 invariant forall i int :: 0 <= i && i < len(end) ==> end[i] == prefix[i]
 //@   loop 0 invariant forall i int :: len(end) <= i && i < len(prefix) ==> prefix[i] == 255
